@@ -321,10 +321,12 @@ func stressBatch(r *rng, thorough bool) stressResult {
 		ex := int(atomic.LoadInt32(&executed))
 		// at most the c items that were in flight, plus what other workers picked up in the instant between item 0's
 		// exec returning and its failure being recorded (a handful at the very most)
-		if os.Getenv("DBG") != "" { fmt.Fprintln(os.Stderr, "executed", ex, "of", n, "c", c) }
+		if os.Getenv("DBG") != "" {
+			fmt.Fprintln(os.Stderr, "executed", ex, "of", n, "c", c)
+		}
 		if !ok || ex > c+64 {
 			return stressResult{Kind: "batch", Runs: runs + it + 1, Witness: map[string]any{
-				"what": "stop-on-error: items far behind the failing one were executed after the failure had been handled",
+				"what":     "stop-on-error: items far behind the failing one were executed after the failure had been handled",
 				"executed": ex, "n": n, "c": c, "terminated": ok}}
 		}
 	}
@@ -369,7 +371,7 @@ func stressBatch(r *rng, thorough bool) stressResult {
 		if !withTimeout(8*time.Second, func() { flyt.Run(context.Background(), node, flyt.NewSharedStore()) }) {
 			return stressResult{Kind: "batch", Runs: runs + tails + it + 1, Witness: map[string]any{
 				"what": "c mutually dependent items (exec callbacks and fallback handlers) did not all run at the same time: the batch deadlocked",
-				"c": c, "mode": mode, "budget": 1 + it%3}}
+				"c":    c, "mode": mode, "budget": 1 + it%3}}
 		}
 	}
 	return stressResult{OK: true, Kind: "batch", Runs: runs + tails + rounds}
@@ -403,11 +405,13 @@ func stressMain(args []string) {
 
 // stressStore: BULK operations (Merge of many keys, Clear, GetAll / Keys / Len of a large store) racing other operations.
 // Every linearizable store satisfies, whatever the interleaving:
-//   phase A  writers Set keys PRIVATE to them while another goroutine keeps merging a large map of other keys: a writer that reads
-//            its own key back right after its Set returned finds what it set, and when everybody has finished every private key holds
-//            its writer's last Set (a lost update is a violation: nothing else writes those keys);
-//   phase B  one goroutine alternates Merge(bulk) and Clear() while readers call Keys / GetAll / Len: the bulk keys appear and
-//            disappear all together, so a reader never counts SOME of them (a torn Merge or a half-cleared store).
+//
+//	phase A  writers Set keys PRIVATE to them while another goroutine keeps merging a large map of other keys: a writer that reads
+//	         its own key back right after its Set returned finds what it set, and when everybody has finished every private key holds
+//	         its writer's last Set (a lost update is a violation: nothing else writes those keys);
+//	phase B  one goroutine alternates Merge(bulk) and Clear() while readers call Keys / GetAll / Len: the bulk keys appear and
+//	         disappear all together, so a reader never counts SOME of them (a torn Merge or a half-cleared store).
+//
 // Large key counts make the windows of copy-on-write / chunked / lock-free-counter implementations wide enough to be hit.
 func stressStore(r *rng, thorough bool) stressResult {
 	budget := 1200 * time.Millisecond
